@@ -30,11 +30,11 @@ type edit struct {
 }
 
 type overlayStats struct {
-	Files      int      `json:"files_rewritten"`
-	YieldSites int      `json:"yield_sites"`
-	ProbeSites int      `json:"probe_sites"`
-	Pools      []string `json:"pools"`
-	Flipped    []string `json:"constraint_flipped"`
+	Files       int      `json:"files_rewritten"`
+	YieldSites  int      `json:"yield_sites"`
+	ProbeSites  int      `json:"probe_sites"`
+	Pools       []string `json:"pools"`
+	Flipped     []string `json:"constraint_flipped"`
 	GrowthSites []string `json:"growth_sites_rewritten"`
 }
 
